@@ -7,9 +7,9 @@ CONSTANTS
   MaxBurns = 3
   MaxMints = 2
   Merger = "overwrite"
-  TicketStore = "first"
+  TicketStore = "all"
   BurnsFirst = TRUE
-  MintKey = "to"
+  MintKey = "minter"
 VIEW GView
 INVARIANTS GPrint
 CHECK_DEADLOCK FALSE
